@@ -39,7 +39,7 @@ package watchers
 //@   local nPause int = 0
 //@   local nResume int = 0
 //@   after Pause(?)#1: nPause = nPause + 1
-//@   after Resume()#1: nResume = nResume + 1
+//@   after pause.Resume()#1: nResume = nResume + 1
 //@   assert Pause(?)#1: [only-when-low] err != nil && !paused // C18: pauses while running exactly when free space ... is below the threshold
-//@   assert Resume()#1: [only-when-enough] err == nil && paused // C18: resumes only once a check has passed again
+//@   assert pause.Resume()#1: [only-when-enough] err == nil && paused // C18: resumes only once a check has passed again
 //@   loop for invariant [alternate] nPause == nResume + ite(paused, 1, 0) // the pipeline is paused by the watcher exactly while `paused`
